@@ -6,6 +6,7 @@
 #include <quadmath.h>
 #include <unistd.h>
 #include <csignal>
+#include <cstdarg>
 #include <cmath>
 #include <cstdint>
 #include <cstdio>
@@ -118,6 +119,8 @@ struct Verdict {
   std::string cls;           // class label for the histogram (may contain several labels separated by ';')
   std::string msg;           // on failure: what was expected / got
   std::string show;          // optional human-readable rendering of the case for samples
+  long sub_evals = 0;        // a case that enumerates an inner finite space (all unit pairs ...) reports how many evaluations it made
+  long sub_nontrivial = 0;   // ... and how many of them were non-trivial (they are distinct by construction within one case)
   static Verdict fail(const std::string& m) { Verdict v; v.ok = false; v.msg = m; v.nontrivial = true; return v; }
   static Verdict skip(const std::string& why) { Verdict v; v.discard = true; v.cls = "discard:" + why; return v; }
 };
@@ -207,7 +210,7 @@ inline std::string real_class(LD v) {
 // ------------------------------------------------------------------------------------------------
 // evidence
 struct Evidence {
-  long evaluations = 0, discards = 0;
+  long evaluations = 0, discards = 0, nontrivial_count = 0;
   std::unordered_set<uint64_t> nontrivial;
   std::map<std::string, long> classes;
   std::vector<std::string> samples;
@@ -251,14 +254,17 @@ inline Verdict guarded(const Sub& sub, const Case& c) {
 
 inline void account(const Sub& sub, const Case& c, const Verdict& v, const std::string& enc) {
   Evidence& E = ev();
-  E.evaluations++; E.per_sub_eval[sub.name]++;
+  const long units = v.sub_evals > 0 ? v.sub_evals : 1;
+  E.evaluations += units; E.per_sub_eval[sub.name] += units;
   if (v.discard) { E.discards++; E.classes[sub.name + ":" + v.cls]++; return; }
   if (!v.cls.empty()) for (auto& l : split(v.cls, ';')) E.classes[sub.name + ":" + l]++;
   if (v.nontrivial) {
-    if (E.nontrivial.insert(fnv(sub.name + enc)).second) E.per_sub_nontrivial[sub.name]++;
+    const bool fresh = E.nontrivial.insert(fnv(sub.name + enc)).second;
+    const long k = v.sub_nontrivial > 0 ? v.sub_nontrivial : 1;
+    const long before = E.per_sub_nontrivial[sub.name];
+    if (fresh) { E.per_sub_nontrivial[sub.name] += k; E.nontrivial_count += k; }
     // deterministic sample selection: the first non-trivial case of each sub plus a sparse hash-selected few
-    long n = E.per_sub_nontrivial[sub.name];
-    if (n == 1 || (fnv(enc) % 4096 == 0 && E.samples.size() < 60)) {
+    if (fresh && (before == 0 || (fnv(enc) % 1024 == 0 && E.samples.size() < 60))) {
       std::string s = "{\"check\":\"" + jesc(sub.name) + "\",\"case\":\"" + jesc(enc) + "\"";
       if (!v.show.empty()) s += ",\"shown\":\"" + jesc(v.show) + "\"";
       if (!v.cls.empty()) s += ",\"class\":\"" + jesc(v.cls) + "\"";
@@ -318,7 +324,7 @@ inline void write_result(const std::string& path, double wall) {
   Evidence& E = ev();
   FILE* f = std::fopen(path.c_str(), "w");
   if (!f) { std::perror("VERIF_OUT"); std::exit(3); }
-  std::fprintf(f, "{\n \"evaluations\": %ld,\n \"discards\": %ld,\n \"distinct_nontrivial\": %zu,\n \"wall_s\": %.3f,\n", E.evaluations, E.discards, E.nontrivial.size(), wall);
+  std::fprintf(f, "{\n \"evaluations\": %ld,\n \"discards\": %ld,\n \"distinct_nontrivial\": %ld,\n \"wall_s\": %.3f,\n", E.evaluations, E.discards, E.nontrivial_count, wall);
   std::fprintf(f, " \"exhaustive\": %s,\n", E.exhaustive_all ? "true" : "false");
   std::fprintf(f, " \"rules\": {");
   { bool first = true; for (auto& kv : E.rules) { std::fprintf(f, "%s\n  \"%s\": \"%s\"", first ? "" : ",", jesc(kv.first).c_str(), jesc(kv.second).c_str()); first = false; } }
